@@ -23,6 +23,7 @@ func init() {
 		},
 		Run: runC34,
 		Controls: []Control{
+			{Name: "conversion-skips-repeated-paths", File: "route/route.go", Old: "\t\ta.Paths[i] = r.paths[i].ToProto()\n", New: "\t\tif i > 0 && r.paths[i].Compare(r.paths[i-1]) {\n\t\t\tcontinue\n\t\t}\n\t\ta.Paths[i] = r.paths[i].ToProto()\n", Expect: "conversion-covers-every-element"},
 			{Name: "cluster-list-copied-into-empty-slice", File: "route/bgp_path.go", Old: "\t\ta.ClusterList = make([]uint32, len(*b.ClusterList))\n", New: "\t\ta.ClusterList = make([]uint32, 0, len(*b.ClusterList))\n", Expect: "copy-has-room"},
 			{Name: "segment-type-carried-across-segments", File: "protocols/bgp/types/as_path.go", Old: "\tfor i := range segments {\n\t\ts := ASPathSegment{\n\t\t\tType: ASSet,\n\t\t\tASNs: make([]uint32, len(segments[i].Asns)),\n\t\t}\n\n\t\tif segments[i].AsSequence {\n\t\t\ts.Type = ASSequence\n\t\t}\n", New: "\tsegType := uint8(ASSequence)\n\tfor i := range segments {\n\t\tif !segments[i].AsSequence {\n\t\t\tsegType = ASSet\n\t\t}\n\t\ts := ASPathSegment{\n\t\t\tType: segType,\n\t\t\tASNs: make([]uint32, len(segments[i].Asns)),\n\t\t}\n", Expect: "element-conversion-is-stateless"},
 			{Name: "cluster-list-guard-on-destination", File: "route/bgp_path.go", Old: "\tif b.ClusterList != nil {\n\t\ta.ClusterList = make([]uint32, len(*b.ClusterList))", New: "\tif a.ClusterList != nil {\n\t\ta.ClusterList = make([]uint32, len(*b.ClusterList))", Expect: "exporter-guards-on-source"},
